@@ -467,7 +467,7 @@ pub fn run(mut run: Run) -> i32 {
     run.replay_committed(&case);
     run.enumerate("grid: micros boundaries", &[Tape::encode_choice(5, 7)], &[MICROS_GRID.len()], &case);
     run.enumerate("grid: boundary micros x sub-us remainder (wall + truncate)", &[Tape::encode_choice(6, 7)], &[MICROS_GRID.len(), 10], &case);
-    let n = run.n(200_000, 10_000_000);
+    let n = run.n(2_000_000, 40_000_000);
     run.random("micros", &[Tape::encode_choice(0, 7)], n / 4, 8, &case);
     run.random("wall", &[Tape::encode_choice(1, 7)], n / 4, 12, &case);
     run.random("truncate", &[Tape::encode_choice(2, 7)], n / 4, 16, &case);
